@@ -173,6 +173,26 @@ def lex_doc(toks, pos, root):
     return body
 
 
+ETOK = {"num": ["1", "2.5", "1e3", ".5"], "var": ["$a", "$abc_1"], "var-nonascii": ["$é", "$日本", "$aé"], "var-brace": ["${a}"],
+        "var-brace-nonascii": ["${é}", "${a é}"], "var-brace-open": ["${a"], "elref": ["#r~w", "#r@tl", "^~h"],
+        "elref-nonascii": ["#é~w", "#r~é", "#r@é"], "op": ["+", "*", "/", "%"], "minus": ["-"], "lparen": ["("], "rparen": [")"],
+        "comma": [","], "str": ["'s'", '"t"'], "str-escape": ["'a\\n'", "'\\'"], "str-open": ["'abc"], "func": ["abs(", "max(", "nosuch("],
+        "word": ["lt", "and", "pi"], "word-nonascii": ["é", "日本", "π"], "dot": ["."], "percent": ["50%"], "space": [" ", "\t"],
+        "dollar": ["$", "$$", "$1"]}
+
+
+def exprlex_doc(toks, ctx, rnd):
+    e = " ".join(rnd.choice(ETOK[t]) for t in toks) if rnd.random() < 0.5 else "".join(rnd.choice(ETOK[t]) for t in toks)
+    e = e.replace("&", "&amp;").replace("<", "&lt;").replace('"', "&quot;")
+    pre = '<rect id="r" wh="4"/><var a="3" abc_1="2"/>'
+    body = {"attr-braces": f'<rect wh="2" data-v="{{{{{e}}}}}"/>', "attr-plain": f'<rect wh="2" data-v="{e}" x="{e}"/>',
+            "if-test": f'<if test="{e}"><rect wh="1"/></if>', "loop-while": f'<loop while="{e}"><rect wh="1"/><var a="0"/></loop>',
+            "loop-count": f'<loop count="{e}"><rect wh="1"/></loop>', "var-value": f'<var v="{e}"/><rect wh="1" data-v="$v"/>',
+            "text": f'<rect wh="9" text="{e}"/><text>{e}</text>', "for-data": f'<for var="i" data="{e}"><rect wh="1" data-v="$i"/></for>',
+            "reuse-attr": f'<specs><rect id="t" wh="$k"/></specs><reuse href="#t" k="{e}"/>'}[ctx]
+    return ("<svg>" + pre + body + "</svg>").encode("utf-8")
+
+
 # --------------------------------------------------------------------------
 # scanner inputs from token classes
 # --------------------------------------------------------------------------
@@ -219,7 +239,7 @@ def path_string(toks, rnd, svg_only=True):
 # --------------------------------------------------------------------------
 # byte mutation
 # --------------------------------------------------------------------------
-DICT = [b"{{", b"}}", b"((", b"))", b"--", b" Z ", b"]]>", b"&", b"&amp;", b"<", b">", b'"', b"'", b"\xff", b"\xc3", b"\x00", b"$", b"${", b"#",
+DICT = ["$é".encode(), "{{$日本 + 1}}".encode(), "${é}".encode(), "#é~w".encode(), "é".encode(), b"{{", b"}}", b"((", b"))", b"--", b" Z ", b"]]>", b"&", b"&amp;", b"<", b">", b'"', b"'", b"\xff", b"\xc3", b"\x00", b"$", b"${", b"#",
         b"^", b"|h", b"@tl", b"~w", b"%", b"1e999", b"-", b"<!--", b"-->", b"<![CDATA[", b"<?", b"?>", b"<svg>", b"</svg>", b"<g>", b"</g>",
         b"<reuse href=\"#a\"/>", b"<loop count=\"99\">", b"</loop>", b"<specs>", b"</specs>", b" id=\"a\"", b" xy=\"#a|h\"", b" wh=\"#a\"",
         b" surround=\"#a\"", b" start=\"#a\" end=\"#a\"", b"\n", b" ", b"nan", b"inf", b"0x10", b"1e-40", b"99999999999999999999"]
